@@ -125,6 +125,26 @@ theorem join_copartitioned (h : V → Nat) (v : JVar) (k1 k2 : V → V) (n : Nat
     (zipWith (joinS v k1 k2) x y).flatten.Perm (joinS v k1 k2 x.flatten y.flatten) :=
   join_copart h v k1 k2 n 0 x y hl hx hy
 
+/-- **keyedJoin_copartitioned** (`KeyedStream::join` / `join_outer`: forward connections, no shuffle):
+    if the two keyed inputs are co-located by the SAME hash of their keys over equally many replicas —
+    whatever code path established that (`group_by`, a two-phase aggregator, a hash-shipped join) —
+    the union of the per-replica keyed joins is the keyed join of the whole streams. If the two paths
+    used different hash functions the hypothesis fails, and so does the engine (seeds C01-3 / C03-3). -/
+theorem keyedJoin_copartitioned (h : V → Nat) (v : JVar) (x y : D) (hl : x.length = y.length)
+    (hx : Coloc h x) (hy : Coloc h y) :
+    (zipWith (keyedJoinS v) x y).flatten.Perm (keyedJoinS v x.flatten y.flatten) :=
+  keyedJoin_copart h v x y hl hx hy
+
+/-- **keyedMerge_copartitioned** (`KeyedStream::merge`): the union of two keyed streams co-located
+    by the same hash is co-located, so a following keyed fold / reduce is the keyed fold of the union. -/
+theorem keyedMerge_copartitioned (h : V → Nat) (c : Nat → Nat) (g : Agg) (x y : D)
+    (hl : x.length = y.length) (hx : Coloc h x) (hy : Coloc h y) :
+    Coloc h ((zipAppend x y).map (permBy c)) ∧
+    ((zipAppend x y).map (permBy c)).flatten.Perm (x.flatten ++ y.flatten) ∧
+    (((zipAppend x y).map (permBy c)).map (keyedFoldS g)).flatten.Perm (keyedFoldS g (x.flatten ++ y.flatten)) := by
+  obtain ⟨h1, h2⟩ := keyedMerge_copart h c x y hl hx hy
+  exact ⟨h1, h2, (keyedFold_parallel h g _ h1 _ h2).2.1⟩
+
 /-- **merge_union**: a binary forward connection followed by any interleaving delivers the union. -/
 theorem merge_union (c : Nat → Nat) (x y : D) :
     ((zipAppend x y).map (permBy c)).flatten.Perm (x.flatten ++ y.flatten) :=
@@ -235,8 +255,9 @@ Node kinds COVERED by the composition theorem (a sink is covered iff every stage
   `shuffle`, `addst`, `gbsum`, `gbfold`, `gbwin`, `reduce`, `joinside`, `mergeside`, nested `replay` /
   `iterate` / `iteritems` / `iterboth`); `sink`.
 NOT covered (their output is tagged `ok := false`, and so is everything downstream): `kwin` with an
-  aggregate other than `cnt` and `zip` (order sensitive), `kjoin` (keyed join: needs equal replica counts of two
-  co-located streams, not tracked by the tags), `kfold`/`kreduce` of a keyed stream that is not
+  aggregate other than `cnt` and `zip` (order sensitive), `kjoin` / `kmerge` (forward keyed join / merge: need equal replica
+  counts of two streams co-located by the same hash, not tracked by the tags; their stage laws are
+  `keyedJoin_copartitioned` / `keyedMerge_copartitioned`), `kfold`/`kreduce` of a keyed stream that is not
   co-located (`keyBy` of a multi-replica stream — genuinely deployment dependent), `bcast` with a
   non-idempotent reduction (genuinely deployment dependent: `broadcast_sink_copies`), broadcast-right
   + outer (not offered by the API).
